@@ -623,4 +623,257 @@ pub mod c06 {
     bufferdata_harness!(t_bufferdata_255, 255, 280);
     bufferdata_harness!(t_bufferdata_57, 57, 80);
     bufferdata_harness!(t_bufferdata_58, 58, 80);
+    // ---------------------------------------------------------------- PkgLength width boundaries with real bodies
+    /// one opaque child sized so that the body is exactly $body bytes: 62 -> one-byte PkgLength (total 63),
+    /// 63 -> two bytes; 4093 / 4094 -> two / three bytes (thorough)
+    macro_rules! boundary_harness {
+        ($name:ident, $child:expr, $cap:expr, $unw:expr, |$c:ident, $p:ident, $root:ident, $segs:ident| $mk:expr, $op:expr, $oplen:expr, |$e:ident| $fixed:expr) => {
+            #[kani::proof]
+            #[kani::unwind($unw)]
+            pub fn $name() {
+                use acpi_tables::aml::*;
+                let $c = Blob::<$child>::any_len($child);
+                let ($p, $root, $segs) = sym_path_r::<1>(false);
+                let _ = (&$root, &$segs);
+                let r: Rec<$cap> = Rec::of(&$mk);
+                let mut $e: Exp<$cap> = Exp::new();
+                $fixed;
+                $e.blob(&$c);
+                let body = $e;
+                let exp: Exp<$cap> = {
+                    let mut x: Exp<$cap> = Exp::new();
+                    x.bytes(&$op);
+                    ref_pkglen_incl(&mut x, body.n);
+                    x.append(&body);
+                    x
+                };
+                verdicts! {
+                    "C06: PkgLength closes exactly on the end of the last child (width boundary)": pkg_closes(&r, $oplen) && r.fits(),
+                    "C06: object equals its production with the shortest self-inclusive PkgLength (width boundary)": r.eq_bytes(&exp.b, exp.n),
+                }
+                kani::cover!(true, "REACHED");
+            }
+        };
+    }
+    // Scope: body = 4 (name) + child
+    boundary_harness!(q_boundary_scope_62, 58, 72, 80, |c, p, root, segs| Scope::new(p, vec![&c]), [0x10u8], 1, |e| ref_namestring(&mut e, root, &segs));
+    boundary_harness!(q_boundary_scope_63, 59, 72, 80, |c, p, root, segs| Scope::new(p, vec![&c]), [0x10u8], 1, |e| ref_namestring(&mut e, root, &segs));
+    // Device
+    boundary_harness!(q_boundary_device_62, 58, 72, 80, |c, p, root, segs| Device::new(p, vec![&c]), [0x5bu8, 0x82], 2, |e| ref_namestring(&mut e, root, &segs));
+    boundary_harness!(q_boundary_device_63, 59, 72, 80, |c, p, root, segs| Device::new(p, vec![&c]), [0x5bu8, 0x82], 2, |e| ref_namestring(&mut e, root, &segs));
+    // Method: body = 4 + 1 (flags) + child
+    boundary_harness!(q_boundary_method_62, 57, 72, 80, |c, p, root, segs| Method::new(p, 3, true, vec![&c]), [0x14u8], 1, |e| { ref_namestring(&mut e, root, &segs); e.u8(3 | 8); });
+    boundary_harness!(q_boundary_method_63, 58, 72, 80, |c, p, root, segs| Method::new(p, 3, true, vec![&c]), [0x14u8], 1, |e| { ref_namestring(&mut e, root, &segs); e.u8(3 | 8); });
+    // PowerResource: body = 4 + 3 + child
+    boundary_harness!(q_boundary_powerresource_62, 55, 72, 80, |c, p, root, segs| PowerResource::new(p, 2, 0x1234, vec![&c]), [0x5bu8, 0x84], 2, |e| { ref_namestring(&mut e, root, &segs); e.u8(2).u16(0x1234); });
+    boundary_harness!(q_boundary_powerresource_63, 56, 72, 80, |c, p, root, segs| PowerResource::new(p, 2, 0x1234, vec![&c]), [0x5bu8, 0x84], 2, |e| { ref_namestring(&mut e, root, &segs); e.u8(2).u16(0x1234); });
+    // If / While / Else: body = child (predicate is the child itself for If/While)
+    boundary_harness!(q_boundary_if_62, 62, 72, 80, |c, p, root, segs| { let _ = p; If::new(&c, vec![]) }, [0xa0u8], 1, |e| ());
+    boundary_harness!(q_boundary_if_63, 63, 72, 80, |c, p, root, segs| { let _ = p; If::new(&c, vec![]) }, [0xa0u8], 1, |e| ());
+    boundary_harness!(t_boundary_while_62, 62, 72, 80, |c, p, root, segs| { let _ = p; While::new(&c, vec![]) }, [0xa2u8], 1, |e| ());
+    boundary_harness!(t_boundary_while_63, 63, 72, 80, |c, p, root, segs| { let _ = p; While::new(&c, vec![]) }, [0xa2u8], 1, |e| ());
+    boundary_harness!(q_boundary_else_62, 62, 72, 80, |c, p, root, segs| { let _ = p; Else::new(vec![&c]) }, [0xa1u8], 1, |e| ());
+    boundary_harness!(q_boundary_else_63, 63, 72, 80, |c, p, root, segs| { let _ = p; Else::new(vec![&c]) }, [0xa1u8], 1, |e| ());
+    // Package: body = 1 (count) + child; VarPackage / BufferTerm: body = child
+    boundary_harness!(q_boundary_package_62, 61, 72, 80, |c, p, root, segs| { let _ = p; Package::new(vec![&c]) }, [0x12u8], 1, |e| { e.u8(1); });
+    boundary_harness!(q_boundary_package_63, 62, 72, 80, |c, p, root, segs| { let _ = p; Package::new(vec![&c]) }, [0x12u8], 1, |e| { e.u8(1); });
+    boundary_harness!(t_boundary_varpackage_62, 62, 72, 80, |c, p, root, segs| { let _ = p; VarPackageTerm::new(&c) }, [0x13u8], 1, |e| ());
+    boundary_harness!(t_boundary_varpackage_63, 63, 72, 80, |c, p, root, segs| { let _ = p; VarPackageTerm::new(&c) }, [0x13u8], 1, |e| ());
+    boundary_harness!(t_boundary_bufferterm_63, 63, 72, 80, |c, p, root, segs| { let _ = p; BufferTerm::new(&c) }, [0x11u8], 1, |e| ());
+    // 4095 / 4096 (two -> three bytes): body 4093 -> total 4095 (2 bytes), 4094 -> 4097 (3 bytes)
+    boundary_harness!(t_boundary_scope_4093, 4089, 4104, 4110, |c, p, root, segs| Scope::new(p, vec![&c]), [0x10u8], 1, |e| ref_namestring(&mut e, root, &segs));
+    boundary_harness!(t_boundary_scope_4094, 4090, 4104, 4110, |c, p, root, segs| Scope::new(p, vec![&c]), [0x10u8], 1, |e| ref_namestring(&mut e, root, &segs));
+    boundary_harness!(t_boundary_else_4094, 4094, 4104, 4110, |c, p, root, segs| { let _ = p; Else::new(vec![&c]) }, [0xa1u8], 1, |e| ());
+    // ---------------------------------------------------------------- composition witness
+    /// Independent recursive-descent decoder for the subset of AML the witnesses use (ACPI 6.5 20.2).
+    /// It is told nothing but the grammar: it records (opcode, value) events, and for every
+    /// PkgLength-delimited object it checks that the object's last child ends exactly at the end the
+    /// PkgLength states. Leaves are symbolic inside a fixed width class, so all lengths are concrete.
+    pub struct Dec<'a> {
+        pub b: &'a [u8],
+        pub n: usize,
+        pub p: usize,
+        pub ok: bool,
+        pub ev: [(u8, u64); 40],
+        pub nev: usize,
+    }
+    impl<'a> Dec<'a> {
+        fn emit(&mut self, k: u8, v: u64) {
+            if self.nev < 40 {
+                self.ev[self.nev] = (k, v);
+            } else {
+                self.ok = false;
+            }
+            self.nev += 1;
+        }
+        fn name(&mut self) -> u64 {
+            // NameString: [\\] (seg | 2E seg seg); value = segments packed, rootedness in bit 63
+            let mut v: u64 = 0;
+            if self.b[self.p] == 0x5c {
+                v |= 1 << 63;
+                self.p += 1;
+            }
+            let cnt = if self.b[self.p] == 0x2e {
+                self.p += 1;
+                2
+            } else {
+                1
+            };
+            let mut i = 0;
+            while i < 4 * cnt {
+                if i < 7 {
+                    v ^= (self.b[self.p + i] as u64) << (8 * i);
+                }
+                i += 1;
+            }
+            self.p += 4 * cnt;
+            v ^ ((cnt as u64) << 60)
+        }
+        /// TermList up to `end`
+        fn list(&mut self, end: usize, depth: u8) {
+            let mut guard = 0;
+            while self.p < end && guard < 6 {
+                self.term(depth);
+                guard += 1;
+            }
+            if self.p != end {
+                self.ok = false; // a child ran past (or stopped short of) the end its parent's PkgLength states
+            }
+        }
+        fn pkg_end(&mut self) -> usize {
+            let start = self.p;
+            let (val, n, fmt) = decode_pkglen(self.b, self.p);
+            if !fmt {
+                self.ok = false;
+            }
+            self.p += n;
+            start + val
+        }
+        fn term(&mut self, depth: u8) {
+            if depth > 6 || self.p >= self.n {
+                self.ok = false;
+                self.p = self.n;
+                return;
+            }
+            let op = self.b[self.p];
+            match op {
+                0x00 | 0x01 | 0xff => { self.p += 1; self.emit(op, 0); }
+                0x0a | 0x0b | 0x0c | 0x0e => {
+                    let (v, n, _ok) = decode_int(self.b, self.p);
+                    self.p += n;
+                    self.emit(op, v);
+                }
+                0x60..=0x6e => { self.p += 1; self.emit(op, 0); }
+                0x10 => { self.p += 1; let e = self.pkg_end(); let nm = self.name(); self.emit(0x10, nm); self.list(e, depth + 1); self.emit(0xfe, 0x10); }
+                0x14 => { self.p += 1; let e = self.pkg_end(); let nm = self.name(); let fl = self.b[self.p]; self.p += 1; self.emit(0x14, nm); self.emit(0xfd, fl as u64); self.list(e, depth + 1); self.emit(0xfe, 0x14); }
+                0x08 => { self.p += 1; let nm = self.name(); self.emit(0x08, nm); self.term(depth + 1); }
+                0xa0 => { self.p += 1; let e = self.pkg_end(); self.emit(0xa0, 0); self.term(depth + 1); self.list(e, depth + 1); self.emit(0xfe, 0xa0); }
+                0xa1 => { self.p += 1; let e = self.pkg_end(); self.emit(0xa1, 0); self.list(e, depth + 1); self.emit(0xfe, 0xa1); }
+                0x12 => { self.p += 1; let e = self.pkg_end(); let c = self.b[self.p]; self.p += 1; self.emit(0x12, c as u64); self.list(e, depth + 1); self.emit(0xfe, 0x12); }
+                0x70 => { self.p += 1; self.emit(0x70, 0); self.term(depth + 1); self.term(depth + 1); }
+                0xa4 => { self.p += 1; self.emit(0xa4, 0); self.term(depth + 1); }
+                0x72 | 0x74 => { self.p += 1; self.emit(op, 0); self.term(depth + 1); self.term(depth + 1); self.term(depth + 1); }
+                0x93 | 0x95 => { self.p += 1; self.emit(op, 0); self.term(depth + 1); self.term(depth + 1); }
+                0x5b => {
+                    let ext = self.b[self.p + 1];
+                    self.p += 2;
+                    if ext == 0x82 {
+                        let e = self.pkg_end();
+                        let nm = self.name();
+                        self.emit(0x82, nm);
+                        self.list(e, depth + 1);
+                        self.emit(0xfe, 0x82);
+                    } else {
+                        self.ok = false;
+                    }
+                }
+                _ => { self.ok = false; self.p = self.n; }
+            }
+        }
+    }
+
+    fn seg_val(root: bool, segs: &[[u8; 4]], cnt: usize) -> u64 {
+        let mut v: u64 = if root { 1 << 63 } else { 0 };
+        let mut i = 0;
+        while i < 4 * cnt {
+            if i < 7 {
+                v ^= (segs[i / 4][i % 4] as u64) << (8 * i);
+            }
+            i += 1;
+        }
+        v ^ ((cnt as u64) << 60)
+    }
+
+    /// Scope(\\SEG0) { Device(DEV0.DEV1) { Name(NAM0, b) ; Method(MTH0, 2, Serialized) {
+    ///     If (LEqual(Arg0, w)) { Return (d) } Else { Store (Add (Local0, q, Local1), Local2) } } } ;
+    ///   Name(NAM1, Package { One, b2 }) }
+    #[kani::proof]
+    #[kani::unwind(130)]
+    pub fn q_witness_nested_tree() {
+        let (p_scope, _r0, s_scope) = sym_path_lead::<1>(true, b'S');
+        let (p_dev, _r1, s_dev) = sym_path_lead::<2>(false, b'D');
+        let (p_n0, _r2, s_n0) = sym_path_lead::<1>(false, b'N');
+        let (p_m, _r3, s_m) = sym_path_lead::<1>(false, b'M');
+        let (p_n1, _r4, s_n1) = sym_path_lead::<1>(false, b'_');
+        // leaves: integer constants written as opaque children "prefix + symbolic payload" -- a symbolic
+        // integer sent through the integer encoder would make every enclosing Vec length symbolic
+        // (the encoder itself is C08's subject)
+        fn leaf<const N: usize>(prefix: u8) -> (Blob<N>, u64) {
+            let mut bl = Blob::<N>::any_len(N);
+            bl.data[0] = prefix;
+            let mut v: u64 = 0;
+            let mut i = 1;
+            while i < N {
+                v |= (bl.data[i] as u64) << (8 * (i - 1));
+                i += 1;
+            }
+            (bl, v)
+        }
+        let (b, bv) = leaf::<2>(0x0a);
+        let (w, wv) = leaf::<3>(0x0b);
+        let (d, dv) = leaf::<5>(0x0c);
+        let (q, qv) = leaf::<9>(0x0e);
+        let (b2, b2v) = leaf::<2>(0x0a);
+        let name0 = Name::new(p_n0, &b);
+        let eq = Equal::new(&Arg(0), &w);
+        let ret = Return::new(&d);
+        let iff = If::new(&eq, vec![&ret]);
+        let add = Add::new(&Local(1), &Local(0), &q);
+        let st = Store::new(&Local(2), &add);
+        let els = Else::new(vec![&st]);
+        let m = Method::new(p_m, 2, true, vec![&iff, &els]);
+        let dev = Device::new(p_dev, vec![&name0, &m]);
+        let pk = Package::new(vec![&ONE, &b2]);
+        let name1 = Name::new(p_n1, &pk);
+        let top = Scope::new(p_scope, vec![&dev, &name1]);
+        let r: Rec<120> = Rec::of(&top);
+        let mut dec = Dec { b: &r.buf, n: r.len, p: 0, ok: r.fits(), ev: [(0, 0); 40], nev: 0 };
+        dec.term(0);
+        let exp: [(u8, u64); 34] = [
+            (0x10, seg_val(true, &s_scope, 1)),
+            (0x82, seg_val(false, &s_dev, 2)),
+            (0x08, seg_val(false, &s_n0, 1)), (0x0a, bv),
+            (0x14, seg_val(false, &s_m, 1)), (0xfd, 2 | 8),
+            (0xa0, 0), (0x93, 0), (0x68, 0), (0x0b, wv), (0xa4, 0), (0x0c, dv), (0xfe, 0xa0),
+            (0xa1, 0), (0x70, 0), (0x72, 0), (0x60, 0), (0x0e, qv), (0x61, 0), (0x62, 0), (0xfe, 0xa1),
+            (0xfe, 0x14),
+            (0xfe, 0x82),
+            (0x08, seg_val(false, &s_n1, 1)), (0x12, 2), (0x01, 0), (0x0a, b2v), (0xfe, 0x12),
+            (0xfe, 0x10),
+            (0, 0), (0, 0), (0, 0), (0, 0), (0, 0),
+        ];
+        let mut same = dec.nev == 29;
+        let mut i = 0;
+        while i < 29 {
+            if dec.ev[i].0 != exp[i].0 || dec.ev[i].1 != exp[i].1 {
+                same = false;
+            }
+            i += 1;
+        }
+        verdicts! {
+            "C06: an independent parser consumes the emitted bytes completely, every PkgLength-delimited object ending where its last child ends": dec.ok && dec.p == r.len,
+            "C06: the parser recovers the same tree (operators, operand order, names, constants, flags)": same,
+        }
+        kani::cover!(true, "REACHED");
+    }
 }
